@@ -172,3 +172,102 @@ Proof. unfold admissible, default_init, default_base. repeat split; try lia. exi
 Example run_epoch_example :
   run_epoch (to_state (mkE Post 4500 9) 2 2251) 2250 = Some (mkF (mkE Post 4500 9) 2 6751 2251 4500).
 Proof. vm_compute. reflexivity. Qed.
+
+(* --- builder scripts: every engine built gets the chunk of ITS schedule --- *)
+Definition st_ok (st : bstate) : Prop :=
+  match st with Some l => valid l = true | None => True end.
+
+Lemma builder_set_epochs_ok_valid l l' ch : builder_set_epochs l = BOk l' ch -> valid l' = true.
+Proof. intros H. destruct (builder_chunk_divides l l' ch H) as [-> [Hv _]]. exact Hv. Qed.
+
+Lemma set_result_ok st r :
+  st_ok st -> (forall l ch, r = BOk l ch -> valid l = true) -> st_ok (fst (set_result st r)).
+Proof.
+  intros Hst Hr. destruct r as [l ch| | |]; cbn [set_result fst]; try exact Hst.
+  cbn [st_ok]. apply (Hr l ch). reflexivity.
+Qed.
+
+Lemma bstep_ok st o : st_ok st -> st_ok (fst (bstep st o)).
+Proof.
+  intros Hst. destruct o as [l|w p t thp thw|]; cbn [bstep].
+  - apply set_result_ok; [exact Hst|]. intros l' ch H. exact (builder_set_epochs_ok_valid l l' ch H).
+  - apply set_result_ok; [exact Hst|]. intros l' ch H. unfold builder_set_duration in H.
+    destruct (stan_epochs w p default_init t default_base thp thw) as [l0| |]; try discriminate.
+    exact (builder_set_epochs_ok_valid l0 l' ch H).
+  - destruct st; exact Hst.
+Qed.
+
+Lemma set_result_event st r : exists b, snd (set_result st r) = ESet b.
+Proof. destruct r; eexists; reflexivity. Qed.
+
+(* for every script on one builder (whatever was set and built before): an engine that is built
+   receives a valid schedule, the chunk is the gcd chunk of THAT schedule, it is >= 1 and divides
+   every non-initial duration, and the engine's chunk loop runs every such epoch to its end *)
+Theorem builder_script_built_ok ops : forall st l ch,
+  st_ok st -> In (EBuilt l ch) (brun st ops) ->
+  valid l = true /\ ch = chunk_len l
+  /\ forall c, In c (tl l) ->
+       1 <= ch /\ (ch | dur c)
+       /\ forall n tb, exists s', run_epoch (to_state c n tb) ch = Some s' /\ time_left s' = 0.
+Proof.
+  induction ops as [|o r IH]; intros st l ch Hst Hin; [contradiction|].
+  cbn [brun] in Hin. destruct (bstep st o) as [st' e] eqn:E.
+  assert (Hst' : st_ok st') by (pose proof (bstep_ok st o Hst) as H; rewrite E in H; exact H).
+  destruct Hin as [He|Hin]; [|exact (IH st' l ch Hst' Hin)].
+  subst e. destruct o as [l0|w p t thp thw|]; cbn [bstep] in E.
+  - destruct (set_result_event st (builder_set_epochs l0)) as [b Hb].
+    rewrite (surjective_pairing (set_result st (builder_set_epochs l0))) in E.
+    injection E as _ E2. rewrite Hb in E2. discriminate.
+  - destruct (set_result_event st (builder_set_duration w p t thp thw)) as [b Hb].
+    rewrite (surjective_pairing (set_result st (builder_set_duration w p t thp thw))) in E.
+    injection E as _ E2. rewrite Hb in E2. discriminate.
+  - destruct st as [l0|]; [|discriminate]. inversion E; subst. rename l into l0.
+    cbn [st_ok] in Hst. split; [exact Hst|]. split; [reflexivity|].
+    intros c Hc.
+    pose proof (chunk_positive l0 c Hst Hc) as Hp.
+    pose proof (chunk_divides l0 c Hc) as Hd.
+    split; [exact Hp|]. split; [exact Hd|]. intros n tb.
+    assert (H0 : 0 <= dur c).
+    { assert (1 <= dur c); [|lia]. apply (valid_dur_pos l0 c Hst). destruct l0; [contradiction|]. right. exact Hc. }
+    destruct (run_epoch_divides c n tb (chunk_len l0) Hp H0 Hd) as [s' [Hs [_ [_ [_ [_ [_ Hl]]]]]]].
+    exists s'. split; [exact Hs|exact Hl].
+Qed.
+
+(* the chunk is a function of the current schedule: setting a valid schedule and building reports
+   that schedule and its own gcd chunk, independently of the builder's history [st] *)
+Theorem builder_script_history_independent st l r :
+  valid l = true ->
+  brun st (BSetEpochs l :: BBuild :: r) = ESet true :: EBuilt l (chunk_len l) :: brun (Some l) r.
+Proof.
+  intros Hv. cbn [brun bstep].
+  destruct (builder_set_epochs_spec l) as [Hok _]. rewrite (Hok Hv). reflexivity.
+Qed.
+
+Theorem builder_script_set_duration_history_independent st w p t thp thw r :
+  admissible w p default_init t default_base thp thw ->
+  exists l, stan_epochs w p default_init t default_base thp thw = SOk l
+    /\ brun st (BSetDuration w p t thp thw :: BBuild :: r)
+       = ESet true :: EBuilt l (chunk_len l) :: brun (Some l) r.
+Proof.
+  intros Ha. destruct (builder_set_duration_ok w p t thp thw Ha) as [l [ch [Hb [Hs [_ [_ [Hch _]]]]]]].
+  exists l. split; [exact Hs|]. cbn [brun bstep]. rewrite Hb. reflexivity.
+Qed.
+
+(* a rejected setter keeps the previous schedule *)
+Theorem builder_script_rejected_keeps st l r :
+  valid l = false -> brun st (BSetEpochs l :: r) = ESet false :: brun st r.
+Proof.
+  intros Hv. cbn [brun bstep]. destruct (builder_set_epochs_spec l) as [_ Hno]. rewrite (Hno Hv). reflexivity.
+Qed.
+
+(* the stale-chunk scenario: 50/25/100 (chunk 25), then 30/20/40 on the same builder: chunk 10, not 25 *)
+Example builder_reuse_example :
+  brun None [BSetEpochs [mkE Init 1 1; mkE Fast 50 1; mkE Burnin 25 1; mkE Post 100 1]; BBuild;
+             BSetEpochs [mkE Init 1 1; mkE Fast 30 1; mkE Burnin 20 1; mkE Post 40 1]; BBuild;
+             BSetEpochs [mkE Post 3 1]; BBuild; BSetDuration 200 64 16 1 1; BBuild]
+  = [ESet true; EBuilt [mkE Init 1 1; mkE Fast 50 1; mkE Burnin 25 1; mkE Post 100 1] 25;
+     ESet true; EBuilt [mkE Init 1 1; mkE Fast 30 1; mkE Burnin 20 1; mkE Post 40 1] 10;
+     ESet false; EBuilt [mkE Init 1 1; mkE Fast 30 1; mkE Burnin 20 1; mkE Post 40 1] 10;
+     ESet true; EBuilt [mkE Init 1 1; mkE Fast 75 1; mkE Slow 25 1; mkE Slow 84 1; mkE Fast 16 1; mkE Post 64 1] 1]
+  /\ run_epoch (to_state (mkE Fast 30 1) 1 1) 25 = None.
+Proof. split; vm_compute; reflexivity. Qed.
